@@ -81,6 +81,19 @@ func TestHistories(t *testing.T) {
 				w.ReEnter(cnt)
 				continue
 			}
+			if k == 17 && len(w.Tables) > 0 && w.Status > 0 {
+				// hands in which nobody busts: every table reports after every hand and
+				// carries out what it is told, for a drawn number of hands (a regulator
+				// that books something at every report shows it only after a while)
+				hands := rapid.IntRange(1, 12).Draw(rt, "idleHands")
+				if rapid.IntRange(0, 3).Draw(rt, "longIdle") == 0 {
+					hands = rapid.IntRange(13, 40).Draw(rt, "idleHandsLong")
+				}
+				rot := rapid.IntRange(0, 9).Draw(rt, "idleRot")
+				ops = append(ops, MOp{K: "idle-hands", N: hands, Rot: rot})
+				w.IdleHands(hands, rot)
+				continue
+			}
 			switch {
 			case k < 6:
 				cnt := rapid.IntRange(0, 3).Draw(rt, "few")
@@ -201,6 +214,8 @@ func replayCase(c *Case, prop string) *vlib.Violation {
 				w.Settle(orderFn(op.Rot))
 			case "re-enter":
 				w.ReEnter(op.N)
+			case "idle-hands":
+				w.IdleHands(op.N, op.Rot)
 			case "release-nothing":
 				w.ReleaseNothing(op.Table)
 			case "sibling-add":
